@@ -124,8 +124,8 @@ def get_mutex_formula(relation: Relation) -> str:
                        f'{PLWriter.LogicConnective.AND} {parent})')
     formula_str = f" {PLWriter.LogicConnective.AND} ".join(f'({f})' for f in formula)
     or_children = f" {PLWriter.LogicConnective.OR} ".join(child for child in sorted(children))
-    return f'({parent} {PLWriter.LogicConnective.EQUIVALENCE} ' \
-           f'{PLWriter.LogicConnective.NOT} ({or_children})) ' \
+    # either no child is selected, or exactly one child is selected together with the parent
+    return f'({PLWriter.LogicConnective.NOT} ({or_children})) ' \
            f'{PLWriter.LogicConnective.OR} ({formula_str})'
 
 
